@@ -364,3 +364,21 @@ Proof.
   - intros a b. apply atom_cmp_antisym.
   - intros a b c. apply atom_cmp_trans.
 Qed.
+
+(* Open finding: in descending mode the inserted sort and the walk disagree on
+   where nulls go, and the null keys of the two sides no longer meet. *)
+Definition desc_left : list jrec := [(ANull 0, 1%N); (ANum 0 1, 2%N)].
+Definition desc_right : list jrec := [(ANull 4, 3%N); (ANum 0 1, 4%N)].   (* descending, nulls first *)
+
+Lemma desc_right_sorted :
+  StronglySorted (fun x y : jrec => atom_cmp_desc (fst x) (fst y) <> Gt) desc_right.
+Proof. repeat constructor; vm_compute; discriminate. Qed.
+
+Theorem join_desc_inserted_sort_refuted :
+  exists ls rs,
+    StronglySorted (fun x y : jrec => atom_cmp_desc (fst x) (fst y) <> Gt) rs /\
+    ~ Permutation (join_desc_left_inserted JInner ls rs) (nested atom_cmp_desc fst fst JInner ls rs).
+Proof.
+  exists desc_left, desc_right. split; [exact desc_right_sorted|].
+  intros P. apply Permutation_length in P. vm_compute in P. discriminate.
+Qed.
